@@ -21,6 +21,7 @@
 #endif
 #include <ctype.h>
 #include <assert.h>
+#include <limits.h>
 
 /* this is a global that doesn't change when walking hierarchy of locations, etc */
 struct hwloc_calc_location_context_s {
@@ -414,6 +415,13 @@ hwloc_calc_parse_range(const char *_string,
   } else if (*end) {
     if (verbose >= 0)
       fprintf(stderr, "invalid character at `%s' after index at `%s'\n", end, string);
+    return -1;
+  }
+
+  if (first > INT_MAX || amount > INT_MAX) {
+    /* these are stored in int below */
+    if (verbose >= 0)
+      fprintf(stderr, "index or width too large in range at `%s'\n", string);
     return -1;
   }
 
